@@ -335,6 +335,35 @@ func VerifC19_GetSelectedVersions() {
 	rt.Reach("getselected-end")
 }
 
+// resources added through the registry (an index's map of identifiers to
+// versions), some with a version string that is refused: the refused ones
+// leave nothing behind that selection or the list of selected versions trip
+// over, the others are selected
+func VerifC19_RegistryAddResources() {
+	reg := c19Registry("/s/updates")
+	reg.Online = true
+	badFirst := rt.Bool("refused-version-for-a-new-resource")
+	badLater := rt.Bool("refused-version-for-a-known-resource")
+	versions := map[string]string{"a/good.zip": "1.0.0"}
+	if badFirst {
+		versions["a/bad.zip"] = "1.x"
+	}
+	err := reg.AddResources(versions, nil, true, true, false)
+	rt.Assert((err != nil) == badFirst, "registryadd/refused-version-reported")
+	if badLater {
+		rt.Assert(reg.AddResources(map[string]string{"a/good.zip": "2.y"}, nil, true, false, false) != nil, "registryadd/refused-version-reported")
+	}
+	reg.SelectVersions()
+	got := reg.GetSelectedVersions() // (a panic here is a violation)
+	rt.Assert(got["a/good.zip"] == "1.0.0", "registryadd/accepted-version-selected")
+	if v, listed := got["a/bad.zip"]; listed {
+		rt.Assert(v != "", "registryadd/no-resource-without-a-version-listed")
+	}
+	_, gerr := reg.GetFile("a/bad.zip")
+	rt.Assert(gerr != nil, "registryadd/refused-resource-has-no-file")
+	rt.Reach("registryadd-end")
+}
+
 // ---- versioned file names <-> (identifier, version) without loss ----
 
 func VerifC19_FileNames() {
